@@ -16,6 +16,7 @@ type memLoader struct {
 	log   []string
 	id    string
 	sink  *sharedLog // global order across the loaders of one set
+	root  string     // "": names resolve against the referrer; otherwise under this base directory
 }
 
 type sharedLog struct {
@@ -24,6 +25,14 @@ type sharedLog struct {
 }
 
 func (m *memLoader) Abs(base, name string) string {
+	if m.root != "" {
+		// a loader with a base directory of its own (as LocalFilesystemLoader with a base
+		// directory): whoever refers to the name, it is looked up under the base
+		if path.IsAbs(name) {
+			return path.Clean(name)
+		}
+		return path.Join(m.root, name)
+	}
 	if path.IsAbs(name) || base == "" {
 		return path.Clean(name)
 	}
